@@ -54,7 +54,7 @@ def main():
     t0 = time.time()
     violations, lines, undecided = 0, [], []
     # proved part: termination of the backtrack analysis (Verus), when the unit exists
-    units = [("update_backtracks", 30)] if os.path.exists(os.path.join(C.VERIF, "contracts", "verus", "update_backtracks.vt")) else []
+    units = [("update_backtracks", 30), ("dfa_builders", 16)]
     vres = V.run_units(units) if units else []
     vsum = V.summarize(vres) if vres else None
     for r in vres:
@@ -163,7 +163,9 @@ def main():
            "exhaustive": False}
     assumptions = ["bounded stand-in: a finite corpus of definitions, each expanded and compiled once; 'expanding twice gives the same code' is a two-run property that no contract expresses - it is sampled by expanding eight "
                    "definitions twice in separate compiler processes and comparing the texts (execution, not proof)",
-                   "termination of update_backtracks for every DFA is the proved part when the Verus unit update_backtracks is listed under proved_obligations"] + ["UNDECIDED: " + u for u in undecided]
+                   "termination of update_backtracks for every DFA is the proved part when the Verus unit update_backtracks is listed under proved_obligations",
+                   "proved for the DFA builder API (unit dfa_builders): under their stated preconditions the builders' own assert!s cannot fire, indexing is in bounds, and wf_dfa (every transition target is a "
+                   "state) is preserved by every builder; the preconditions themselves are not verified at the call sites in nfa_to_dfa / add_dfa"] + ["UNDECIDED: " + u for u in undecided]
     rc = C.EXIT_VIOLATION if violations else (C.EXIT_UNDECIDED if undecided else C.EXIT_OK)
     C.write_evidence(PROP, "model_checking" if False else "other", dict(cov, explanation="bounded stand-in by execution of the real macro on a corpus under a watchdog, plus a Verus termination proof of the backtrack analysis when listed"), assumptions, time.time() - t0, violations)
     for u in undecided:
